@@ -738,7 +738,7 @@ func (c *Ctx) lemmaFormula(l *Lemma, suffix string) (binders []string, req, ens 
 	var rs, es []string
 	for _, p := range l.Params {
 		v := env.vars[p.Name]
-		if v.ty.gt != nil {
+		if v.ty.gt != nil && !l.Untyped {
 			if inv := c.valueTypeInv(v.term, v.ty.gt, 0); inv != "true" {
 				rs = append(rs, inv)
 			}
@@ -842,7 +842,7 @@ func (c *Ctx) lemmaObligations(name string) ([]*Obligation, error) {
 		b.WriteString(fmt.Sprintf("(assert (forall (%s) %s))\n", strings.Join(kept, " "), ibody))
 	}
 	b.WriteString("(assert " + req + ")\n(assert (not " + ens + "))\n")
-	o := &Obligation{Name: "lemma:" + name, Fn: "lemma:" + name, Kind: "lemma", Src: "lemma " + name, Where: lm.Where, Query: b.String(), NoLemmas: true, Native: lm.Theory == "strings"}
+	o := &Obligation{Name: "lemma:" + name, Fn: "lemma:" + name, Kind: "lemma", Src: "lemma " + name, Where: lm.Where, Query: b.String(), NoLemmas: true, Native: lm.Theory == "strings", Uses: lm.Uses}
 	return []*Obligation{o}, nil
 }
 
